@@ -2,6 +2,7 @@ import Utv.Model.C18
 import Utv.Lemmas.C18
 import Utv.Lemmas.C18Cost
 import Utv.Lemmas.C18Unamb
+import Utv.Lemmas.C18Fuel
 /-!
 C18 — the depth limit is exact and parse cost stays bounded.
 
@@ -86,9 +87,10 @@ theorem parseFF_good (hQ : Q.falsyRoute = false) (h : Rel E pd pu) (c c' : Ctx)
     (hd : c.depth = c'.depth) (hm : c.mode = c'.mode) (fields : List (String × Ty)) (kvs : List (Key × Val)) :
     Good (fun rs => rs.all (fun p => within E c.depth p.2))
       (parseFF Q pd c fields kvs).1 (parseFF Q pu c' fields kvs).1 := by
-  simp only [parseFF]
+  simp only [parseFF, ffItem]
   apply seqM_good (fun (p : String × Res) => within E c.depth p.2)
   intro ft
+  simp only [ffItem]
   cases lookupKey (Key.str ft.1) kvs with
   | none => exact good_ok _ _ (by simp [within])
   | some fv =>
@@ -512,7 +514,7 @@ theorem badChain_cost (W : World) (hg : ∀ m, W.leafOk m 0 = true) (hb : ∀ m,
     have : 2 * 0 + 2 + j = j + 1 + 1 := by omega
     rw [this]
     simp [parse, step, nodeEnv_get, exceeded, badChain, parseFF, seqM, lookupKey, parseField, enter, inCtx,
-      mapOut, hb, chainCost, Mode.lenient, failIf, unwrapData, toDict]
+      mapOut, hb, chainCost, Mode.lenient, failIf, unwrapData, toDict, ffItem]
   | succ k ih =>
     intro j c
     have : 2 * (k + 1) + 2 + j = (2 * k + 2 + j) + 1 + 1 := by omega
@@ -525,7 +527,7 @@ theorem badChain_cost (W : World) (hg : ∀ m, W.leafOk m 0 = true) (hb : ∀ m,
     have hu := fun c' hc' => union_triples Q (parse W Q nodeEnv (2 * k + 2 + j)) c' hc' (badChain k) (chainCost k)
       (by rw [hkvs]; rfl) (fun c'' => ih j c'') hnone
     simp [parse, step, nodeEnv_get, exceeded, badChain, parseFF, seqM, lookupKey, parseField, enter, inCtx,
-      mapOut, hg, chainCost, hu, failIf, unwrapData, toDict]
+      mapOut, hg, chainCost, hu, failIf, unwrapData, toDict, ffItem]
     omega
 
 /-- **The unchanged code is exponential** (negation of the cost clause, at full strength): an input of
@@ -806,7 +808,7 @@ theorem step_costOk (B : Nat) (hE : envOk B E = true) (h1 : CostFree rec) (h2 : 
             have := hf (it.1, it.2.1) (knownItems_field _ _ it hit)
             exact field_cost B h2 _ _ _ this.1 this.2
           · -- field-first
-            simp only [parseFF]
+            simp only [parseFF, ffItem]
             have hsum : (cd.fields.map fun ft => B * sizeAt kvs (Key.str ft.1)).sum ≤ B * vsizeK kvs := by
               have h0 := sum_sizeAt_le (cd.fields.map fun ft => Key.str ft.1)
                 (by
@@ -824,7 +826,7 @@ theorem step_costOk (B : Nat) (hE : envOk B E = true) (h1 : CostFree rec) (h2 : 
               exact Nat.mul_le_mul_left _ h0
             refine Nat.le_trans (seqM_cost_le _ (fun ft => B * sizeAt kvs (Key.str ft.1)) _ ?_) hsum
             intro ft hft
-            simp only [sizeAt]
+            simp only [sizeAt, ffItem]
             cases lookupKey (Key.str ft.1) kvs with
             | none => simp
             | some fv =>
@@ -1052,9 +1054,9 @@ theorem step_forced (hrec : ForcedOk E rec) : ForcedOk E (step W Q E rec) := by
             List.mem_map.2 ⟨(f, ft), lookup_some_mem _ _ _ hlook, by simp [hl]⟩
           exact Nat.le_trans (hrec ft sub n hsub c' r' hc') (rdepthF_mem _ f r' hmem)
         · -- field-first
-          simp only [parseFF] at hfs
+          simp only [parseFF, ffItem] at hfs
           obtain ⟨b, hb, hp⟩ := seqM_ok_mem _ _ fs hfs (f, ft) (lookup_some_mem _ _ _ hlook)
-          simp only [hkey] at hp
+          simp only [ffItem, hkey] at hp
           obtain ⟨r', hr', rfl⟩ := (mapOut_fst_ok _ _ b).1 hp
           obtain ⟨c', hc'⟩ := parseField_ok _ _ _ _ hr'
           exact Nat.le_trans (hrec ft sub n hsub c' r' hc') (rdepthF_mem _ f r' hb)
@@ -1429,9 +1431,10 @@ theorem step_rel2 (hQ : Q.falsyRoute = false) (hE : envUnamb E = true) (hrel : R
               hfield it.2.1 it.2.2 b' (hf (it.1, it.2.1) (knownItems_field _ _ it hit)) hb') b hb
           · rename_i hdfs
             simp only [hdfs, Bool.false_eq_true, if_false]
-            simp only [parseFF] at hfs ⊢
+            simp only [parseFF, ffItem] at hfs ⊢
             refine seqM_agree _ _ _ ?_ fs hfs
             intro ft hft b hb
+            simp only [ffItem] at hb ⊢
             cases hl : lookupKey (Key.str ft.1) kvs with
             | none => simpa [hl] using hb
             | some fv =>
@@ -1852,44 +1855,186 @@ namespace Utv.C18
 /-! ### assignments on instances of an already parsed tree
 
 `inst.f = w`, `inst['f'] = w`, `inst.update(f=w)`, `inst |= {f: w}` all end in `Schema.__field_setter__` /
-`__setitem__`, which parse `w` as field `f` in a **fresh** context of the instance's class (`parseAssign`).  So an
-assignment is the parse of the one-field mapping `{f: w}` at the root: the instance is level 1, whatever level it was
-built at, and every theorem about `parseTop` transfers. -/
+`__setitem__`, which make a context for the instance's class **without a parent** and parse `w` as field `f`
+(`parseAssign`, built from the same `classCtx` / `parseField` pieces as the `.data` branch of `step`).  The content
+proved here: such an assignment *is* the parse of the one-field mapping `{f: w}` by the class at the root
+(`C18_assign_is_root_parse`, through the field-first and the data-first loop), so the exactness theorems apply to the
+assigned value with the instance as level 1 — from whatever level of whatever tree the instance was taken. -/
 
-/-- **A setter starts from a fresh root context**: the level at which the instance sits in an earlier parse is
-not looked at. -/
-theorem C18_assign_fresh_context (W : World) (Q : Quirks) (hS : Q.setterInherits = false) (E : Env) (fuel level k : Nat)
-    (f : String) (w : Val) :
-    parseAssign W Q E fuel level k f w = parseTop W Q E fuel false k (.dict [(.str f, w)]) := by
-  simp [parseAssign, parseTop, hS]
+/-- the `.data` branch of `step` makes its context the way `classCtx` says (the tie between the two spellings) -/
+theorem step_data_classCtx (W : World) (Q : Quirks) (E : Env) (rec : Parser) (c : Ctx) (k : Nat) (cd : ClassDecl)
+    (kvs : List (Key × Val)) (hk : E[k]? = some cd) :
+    step W Q E rec c (.data k) (.dict kvs) =
+      match classCtx c.depth cd with
+      | .err fl => (.err fl, 0)
+      | .ok c' =>
+        mapOut (Res.data k) (failIf (cd.mode.noLoss && hasUnknown cd.fields kvs)
+          (if cd.dfs then parseDF Q rec c' cd.fields
+              (if (cd.mode.noLoss && hasUnknown cd.fields kvs) then knownPrefix cd.fields kvs else kvs)
+           else parseFF Q rec c' cd.fields kvs)) := by
+  simp only [step, hk, unwrapData, toDict, classCtx]
+  split <;> rfl
 
-/-- the same assignment on an instance taken from any level of any tree and on a directly constructed one -/
-theorem C18_assign_level_independent (W : World) (Q : Quirks) (hS : Q.setterInherits = false) (E : Env)
-    (fuel level level' k : Nat) (f : String) (w : Val) :
-    parseAssign W Q E fuel level k f w = parseAssign W Q E fuel level' k f w := by
-  rw [C18_assign_fresh_context W Q hS, C18_assign_fresh_context W Q hS]
+/-- the fields of an instance of which only `f` was given -/
+def oneField (fields : List (String × Ty)) (f : String) (r : Res) : List (String × Res) :=
+  fields.map fun ft => (ft.1, if ft.1 = f then r else Res.none)
 
-/-- **The depth limit is exact for assignments** (`max_depth = d ≥ 1` on every class): what is accepted has nesting
-depth ≤ d counted from the instance; and a value that is assigned as `r` without a limit is assigned as `r` under the
-limit **iff** `rdepth r ≤ d` (`r` = the instance with the new field). -/
-theorem C18_assign_exact (W : World) (Q : Quirks) (hQ : Q.falsyRoute = false) (hR : Q.rootLevel = false)
-    (hS : Q.setterInherits = false) (E : Env) (d : Nat) (hd : d ≠ 0) (fuel level k : Nat) (f : String) (w : Val) :
-    (∀ r, (parseAssign W Q (withLimit d E) fuel level k f w).1 = .ok r →
-        rdepth r ≤ d ∧ (parseAssign W Q (unlimited E) fuel level k f w).1.isOk = true) ∧
-    (∀ r, (parseAssign W Q (unlimited E) fuel level k f w).1 = .ok r →
-        ((parseAssign W Q (withLimit d E) fuel level k f w).1 = .ok r ↔ rdepth r ≤ d)) := by
-  rw [C18_assign_fresh_context W Q hS, C18_assign_fresh_context W Q hS]
-  exact C18_depth_exact W Q hQ hR E d hd fuel false k _
+theorem lookupKey_single_ne {α} (k k' : Key) (w : α) (h : k' ≠ k) : lookupKey k [(k', w)] = none := by
+  simp [lookupKey, h]
 
-/-- … and on verdicts, for declarations whose unions cannot be read in two ways: the assignment is accepted **iff**
-it is accepted without limit with nesting depth (instance included) at most `d` — for an instance from any level. -/
+theorem lookupKey_single_eq {α} (k : Key) (w : α) : lookupKey k [(k, w)] = some w := by
+  simp [lookupKey]
+
+theorem ffItem_absent (Q : Quirks) (rec : Parser) (c : Ctx) (f : String) (w : Val) (ft : String × Ty) (h : ft.1 ≠ f) :
+    ffItem Q rec c [(Key.str f, w)] ft = (.ok (ft.1, Res.none), 0) := by
+  have hne : Key.str f ≠ Key.str ft.1 := fun he => h (by cases he; rfl)
+  simp only [ffItem, lookupKey_single_ne _ _ w hne]
+
+theorem ffItem_present (Q : Quirks) (rec : Parser) (c : Ctx) (f : String) (w : Val) (t : Ty) :
+    ffItem Q rec c [(Key.str f, w)] (f, t) = mapOut (fun r => (f, r)) (parseField Q rec c t w) := by
+  simp only [ffItem, lookupKey_single_eq]
+
+theorem seqM_absent (Q : Quirks) (rec : Parser) (c : Ctx) (f : String) (w : Val) (fields : List (String × Ty))
+    (h : ∀ ft ∈ fields, ft.1 ≠ f) (r : Res) :
+    seqM (ffItem Q rec c [(Key.str f, w)]) fields = (.ok (oneField fields f r), 0) := by
+  induction fields with
+  | nil => rfl
+  | cons x xs ih =>
+    have hx : x.1 ≠ f := h x (by simp)
+    simp only [seqM, ffItem_absent Q rec c f w x hx, ih (fun ft hft => h ft (by simp [hft])), oneField, List.map_cons,
+      hx, if_false, Nat.add_zero]
+
+theorem parseFF_one (Q : Quirks) (rec : Parser) (c : Ctx) (f : String) (t : Ty) (w : Val)
+    (fields : List (String × Ty)) (hnd : (fields.map Prod.fst).Nodup) (hf : fields.lookup f = some t) :
+    parseFF Q rec c fields [(.str f, w)] = mapOut (oneField fields f) (parseField Q rec c t w) := by
+  simp only [parseFF]
+  induction fields with
+  | nil => simp [List.lookup] at hf
+  | cons x xs ih =>
+    rcases x with ⟨s, t0⟩
+    simp only [List.map_cons, List.nodup_cons] at hnd
+    simp only [List.lookup] at hf
+    by_cases hs : f = s
+    · subst hs
+      simp only [beq_self_eq_true, Option.some.injEq] at hf
+      subst hf
+      have habs := seqM_absent Q rec c f w xs (fun ft hft he => hnd.1 (List.mem_map.2 ⟨ft, hft, he⟩))
+      simp only [seqM, ffItem_present]
+      rcases parseField Q rec c t0 w with ⟨o, n⟩
+      cases o with
+      | err fl => simp [mapOut]
+      | ok r => simp [mapOut, habs r, oneField]
+    · have hbeq : (f == s) = false := by simpa using hs
+      simp only [hbeq] at hf
+      have hsf : ¬ (s = f) := fun he => hs he.symm
+      simp only [seqM, ffItem_absent Q rec c f w (s, t0) hsf, ih hnd.2 hf]
+      rcases parseField Q rec c t w with ⟨o, n⟩
+      cases o with
+      | err fl => simp [mapOut]
+      | ok r => simp [mapOut, oneField, hsf]
+
+theorem parseDF_one (Q : Quirks) (rec : Parser) (c : Ctx) (f : String) (t : Ty) (w : Val)
+    (fields : List (String × Ty)) (hf : fields.lookup f = some t) :
+    parseDF Q rec c fields [(.str f, w)] = mapOut (oneField fields f) (parseField Q rec c t w) := by
+  simp only [parseDF, knownItems, List.filterMap_cons, hf, Option.map_some, List.filterMap_nil, dedupFst,
+    List.filter_nil, seqM]
+  rcases parseField Q rec c t w with ⟨o, n⟩
+  cases o with
+  | err fl => simp [mapOut]
+  | ok r =>
+    simp only [mapOut, Nat.add_zero, oneField]
+    congr 2
+    apply List.map_congr_left
+    intro ft _
+    by_cases hs : ft.1 = f
+    · simp [hs, List.lookup]
+    · have : (ft.1 == f) = false := by simpa using hs
+      simp [hs, List.lookup, this]
+
+/-- **An assignment is the root parse of the one-field mapping** (content: the setter's parent-less context is the
+root context of the class; the field loops — field-first and data-first — visit the one given key and fill the rest
+with defaults; no additional key is involved).  `fuel + 1`: the root parse spends one unit on the class itself. -/
+theorem C18_assign_is_root_parse (W : World) (Q : Quirks) (hS : Q.setterInherits = false) (E : Env)
+    (fuel level k : Nat) (cd : ClassDecl) (f : String) (t : Ty) (w : Val)
+    (hk : E[k]? = some cd) (hnd : (cd.fields.map Prod.fst).Nodup) (hf : cd.fields.lookup f = some t) :
+    parseTop W Q E (fuel + 1) false k (.dict [(.str f, w)]) =
+      mapOut (fun r => Res.data k (oneField cd.fields f r)) (parseAssign W Q E fuel level k f w) := by
+  have hknown : hasUnknown cd.fields [(Key.str f, w)] = false := by
+    simp [hasUnknown, isKnown, hf]
+  simp only [parseTop, Bool.false_and, Bool.false_eq_true, if_false, parse, step_data_classCtx W Q E _ _ k cd _ hk,
+    parseAssign, hk, hS, hf, hknown, Bool.and_false, failIf_false]
+  cases classCtx 0 cd with
+  | err fl => rfl
+  | ok c' =>
+    simp only
+    split
+    · rw [parseDF_one Q _ c' f t w cd.fields hf]
+      rcases parseField Q (parse W Q E fuel) c' t w with ⟨o, n⟩
+      cases o <;> rfl
+    · rw [parseFF_one Q _ c' f t w cd.fields hnd hf]
+      rcases parseField Q (parse W Q E fuel) c' t w with ⟨o, n⟩
+      cases o <;> rfl
+
+theorem rdepthF_oneField (fields : List (String × Ty)) (f : String) (r : Res) (h : ∃ t, (f, t) ∈ fields) :
+    rdepthF (oneField fields f r) = rdepth r := by
+  induction fields with
+  | nil => obtain ⟨t, ht⟩ := h; cases ht
+  | cons x xs ih =>
+    simp only [oneField, List.map_cons, rdepthF]
+    by_cases hx : x.1 = f
+    · simp only [hx, if_true]
+      by_cases hrest : ∃ t, (f, t) ∈ xs
+      · have := ih hrest
+        simp only [oneField] at this
+        rw [this]; exact Nat.max_self _
+      · have hz : rdepthF (xs.map fun ft => (ft.1, if ft.1 = f then r else Res.none)) = 0 := by
+          clear ih h
+          induction xs with
+          | nil => rfl
+          | cons y ys ihy =>
+            have hy : y.1 ≠ f := fun he => hrest ⟨y.2, by simp [← he]⟩
+            simp only [List.map_cons, rdepthF, hy, if_false, rdepth]
+            rw [ihy (fun ⟨t, ht⟩ => hrest ⟨t, by simp [ht]⟩)]
+            rfl
+        rw [hz]; exact Nat.max_eq_left (Nat.zero_le _)
+    · obtain ⟨t, ht⟩ := h
+      have hrest : ∃ t, (f, t) ∈ xs := by
+        rcases List.mem_cons.1 ht with he | hm
+        · exact absurd (by rw [← he]) hx
+        · exact ⟨t, hm⟩
+      have := ih hrest
+      simp only [oneField] at this
+      simp only [hx, if_false, rdepth, this]
+      exact Nat.max_eq_right (Nat.zero_le _)
+
+/-- **The depth limit is exact for assignments** (corollary of `C18_assign_is_root_parse` and `C18_depth_exact_iff`):
+declarations whose unions cannot be read in two ways, `max_depth = d ≥ 1` on every class; an instance of class `k` taken
+from **any** level of any parsed tree; `f` a declared field.  The assignment `inst.f = w` is accepted **iff** it is
+accepted without limits with a value `r` of nesting depth `rdepth r + 1 ≤ d` (the instance itself is level 1). -/
 theorem C18_assign_exact_iff (W : World) (Q : Quirks) (hQ : Q.falsyRoute = false) (hR : Q.rootLevel = false)
     (hS : Q.setterInherits = false) (E : Env) (hE : envUnamb E = true) (d : Nat) (hd : d ≠ 0)
-    (fuel level k : Nat) (f : String) (w : Val) :
+    (fuel level k : Nat) (cd : ClassDecl) (f : String) (t : Ty) (w : Val)
+    (hk : E[k]? = some cd) (hnd : (cd.fields.map Prod.fst).Nodup) (hf : cd.fields.lookup f = some t) :
     (parseAssign W Q (withLimit d E) fuel level k f w).1.isOk = true ↔
-      ∃ r, (parseAssign W Q (unlimited E) fuel level k f w).1 = .ok r ∧ rdepth r ≤ d := by
-  rw [C18_assign_fresh_context W Q hS, C18_assign_fresh_context W Q hS]
-  exact C18_depth_exact_iff W Q hQ hR E hE d hd fuel false k _
+      ∃ r, (parseAssign W Q (unlimited E) fuel level k f w).1 = .ok r ∧ rdepth r + 1 ≤ d := by
+  have hkL : (withLimit d E)[k]? = some { cd with maxDepth := some d } := by rw [withLimit_get, hk]; rfl
+  have hkU : (unlimited E)[k]? = some { cd with maxDepth := none } := by rw [unlimited_get, hk]; rfl
+  have eL := C18_assign_is_root_parse W Q hS (withLimit d E) fuel level k _ f t w hkL hnd hf
+  have eU := C18_assign_is_root_parse W Q hS (unlimited E) fuel level k _ f t w hkU hnd hf
+  have hiff := C18_depth_exact_iff W Q hQ hR E hE d hd (fuel + 1) false k (.dict [(.str f, w)])
+  rw [eL, eU, mapOut_isOk] at hiff
+  rw [hiff]
+  have hmem : ∃ t, (f, t) ∈ cd.fields := ⟨t, lookup_some_mem _ _ _ hf⟩
+  constructor
+  · rintro ⟨R, hR', hle⟩
+    obtain ⟨r, hr, rfl⟩ := (mapOut_fst_ok _ _ R).1 hR'
+    refine ⟨r, hr, ?_⟩
+    simp only [rdepth, rdepthF_oneField cd.fields f r hmem] at hle
+    exact hle
+  · rintro ⟨r, hr, hle⟩
+    refine ⟨_, (mapOut_fst_ok _ _ _).2 ⟨r, hr, rfl⟩, ?_⟩
+    simp only [rdepth, rdepthF_oneField cd.fields f r hmem]
+    exact hle
 
 /-- what the property excludes (a setter that chains its context to the one the instance was built with): a scalar
 assigned to the instance at level 3 of a tree parsed with `max_depth = 3` would be rejected, the same assignment on a
@@ -1899,5 +2044,261 @@ theorem C18_setter_inherits_witness :
     (parseAssign W0 { setterInherits := true } (oneClass (.union [.data 0, .none]) 3) 10 0 0 "v" (.tok 0)).1.isOk = true ∧
     (parseAssign W0 Quirks.fixed (oneClass (.union [.data 0, .none]) 3) 10 3 0 "v" (.tok 0)).1.isOk = true := by
   decide
+
+end Utv.C18
+
+namespace Utv.C18
+
+/-! ### per-class limits: the general statement, against a specification written on the result alone
+
+The code checks every nested class against **its own** `max_depth` (cls.py:595 → `parser.make_context` passes the
+class' own options; options.py:374 checks `self.options.max_depth`), the level being counted from the root of the
+parse.  `Respects E n r` says exactly that on the result tree, by plain recursion (`levels`), without the parser's
+`exceeded`; `within` (the Boolean the relational proof runs on) is shown equivalent to it. -/
+
+theorem exceeded_false_iff (md : Option Nat) (l : Nat) :
+    exceeded md l = false ↔ ∀ m, md = some m → m ≠ 0 → l ≤ m := by
+  cases md with
+  | none => simp [exceeded]
+  | some k =>
+    simp only [exceeded, Option.some.injEq, forall_eq']
+    by_cases hk : k = 0
+    · subst hk; simp
+    · simp [hk]
+
+mutual
+theorem within_iff_respects (E : Env) : ∀ (n : Nat) (r : Res),
+    within E n r = true ↔ ∀ p ∈ levels n r, ∃ cd, E[p.1]? = some cd ∧ ∀ m, cd.maxDepth = some m → m ≠ 0 → p.2 ≤ m
+  | _, .leaf _ => by simp [within, levels]
+  | _, .none => by simp [within, levels]
+  | n, .data k fs => by
+    have ih := withinF_iff_respects E (n + 1) fs
+    simp only [within, levels, Bool.and_eq_true, List.mem_cons, forall_eq_or_imp, ih]
+    constructor
+    · rintro ⟨h1, h2⟩
+      refine ⟨?_, h2⟩
+      cases hk : E[k]? with
+      | none => simp [hk] at h1
+      | some cd =>
+        simp only [hk] at h1
+        exact ⟨cd, rfl, (exceeded_false_iff _ _).1 (by simpa using h1)⟩
+    · rintro ⟨⟨cd, hk, h1⟩, h2⟩
+      refine ⟨?_, h2⟩
+      simp [hk, (exceeded_false_iff cd.maxDepth (n + 1)).2 h1]
+  | n, .list rs => by simpa [within, levels] using withinL_iff_respects E n rs
+  | n, .tuple rs => by simpa [within, levels] using withinL_iff_respects E n rs
+  | n, .dict kvs => by simpa [within, levels] using withinK_iff_respects E n kvs
+theorem withinL_iff_respects (E : Env) : ∀ (n : Nat) (rs : List Res),
+    withinL E n rs = true ↔ ∀ p ∈ levelsL n rs, ∃ cd, E[p.1]? = some cd ∧ ∀ m, cd.maxDepth = some m → m ≠ 0 → p.2 ≤ m
+  | _, [] => by simp [withinL, levelsL]
+  | n, r :: rs => by
+    simp only [withinL, levelsL, Bool.and_eq_true, List.mem_append, within_iff_respects E n r,
+      withinL_iff_respects E n rs]
+    constructor
+    · rintro ⟨h1, h2⟩ p (hp | hp)
+      · exact h1 p hp
+      · exact h2 p hp
+    · intro h; exact ⟨fun p hp => h p (Or.inl hp), fun p hp => h p (Or.inr hp)⟩
+theorem withinF_iff_respects (E : Env) : ∀ (n : Nat) (rs : List (String × Res)),
+    withinF E n rs = true ↔ ∀ p ∈ levelsF n rs, ∃ cd, E[p.1]? = some cd ∧ ∀ m, cd.maxDepth = some m → m ≠ 0 → p.2 ≤ m
+  | _, [] => by simp [withinF, levelsF]
+  | n, (_, r) :: rs => by
+    simp only [withinF, levelsF, Bool.and_eq_true, List.mem_append, within_iff_respects E n r,
+      withinF_iff_respects E n rs]
+    constructor
+    · rintro ⟨h1, h2⟩ p (hp | hp)
+      · exact h1 p hp
+      · exact h2 p hp
+    · intro h; exact ⟨fun p hp => h p (Or.inl hp), fun p hp => h p (Or.inr hp)⟩
+theorem withinK_iff_respects (E : Env) : ∀ (n : Nat) (rs : List (Key × Res)),
+    withinK E n rs = true ↔ ∀ p ∈ levelsK n rs, ∃ cd, E[p.1]? = some cd ∧ ∀ m, cd.maxDepth = some m → m ≠ 0 → p.2 ≤ m
+  | _, [] => by simp [withinK, levelsK]
+  | n, (_, r) :: rs => by
+    simp only [withinK, levelsK, Bool.and_eq_true, List.mem_append, within_iff_respects E n r,
+      withinK_iff_respects E n rs]
+    constructor
+    · rintro ⟨h1, h2⟩ p (hp | hp)
+      · exact h1 p hp
+      · exact h2 p hp
+    · intro h; exact ⟨fun p hp => h p (Or.inl hp), fun p hp => h p (Or.inr hp)⟩
+end
+
+theorem within_eq_respects (E : Env) (n : Nat) (r : Res) : within E n r = true ↔ Respects E n r :=
+  within_iff_respects E n r
+
+/-- **The depth limit is exact, per class** (general declarations: every class its own `max_depth` or none).
+Result-wise: (1) what is accepted is accepted without limits too and every instance of its result sits within the
+limit of its own class; (2) a value that parses to `r` without limits is accepted as `r` under the limits **iff**
+every instance of `r` sits within the limit of its own class (`Respects`, levels counted from the root of the parse). -/
+theorem C18_limit_exact (W : World) (Q : Quirks) (hQ : Q.falsyRoute = false) (E : Env) (fuel : Nat)
+    (c : Ctx) (T : Ty) (v : Val) :
+    (∀ r, (parse W Q E fuel c T v).1 = .ok r →
+        Respects E c.depth r ∧ (parse W Q (unlimited E) fuel c T v).1.isOk = true) ∧
+    (∀ r, (parse W Q (unlimited E) fuel c T v).1 = .ok r →
+        ((parse W Q E fuel c T v).1 = .ok r ↔ Respects E c.depth r)) := by
+  constructor
+  · intro r h
+    exact ⟨(within_eq_respects E _ r).1 (C18_limit_sound W Q hQ E fuel c T v r h),
+      C18_limit_monotone W Q hQ E fuel c T v r h⟩
+  · intro r h
+    constructor
+    · intro h'; exact (within_eq_respects E _ r).1 (C18_limit_sound W Q hQ E fuel c T v r h')
+    · intro hr; exact C18_limit_complete W Q hQ E fuel c T v r h ((within_eq_respects E _ r).2 hr)
+
+/-- … and on verdicts, when no union has two container alternatives: a value is accepted **iff** it is accepted without
+limits and every instance of each limited class sits within that class' own limit. -/
+theorem C18_limit_exact_iff (W : World) (Q : Quirks) (hQ : Q.falsyRoute = false) (E : Env) (hE : envUnamb E = true)
+    (fuel : Nat) (c : Ctx) (T : Ty) (hT : unamb T = true) (v : Val) :
+    (parse W Q E fuel c T v).1.isOk = true ↔
+      ∃ r, (parse W Q (unlimited E) fuel c T v).1 = .ok r ∧ Respects E c.depth r := by
+  constructor
+  · intro h
+    obtain ⟨r, hr⟩ := (isOk_true_iff _).1 h
+    exact ⟨r, C18_limit_same_reading W Q hQ E hE fuel c T hT v r hr,
+      (within_eq_respects E _ r).1 (C18_limit_sound W Q hQ E fuel c T v r hr)⟩
+  · rintro ⟨r, hr, hres⟩
+    rw [((C18_limit_exact W Q hQ E fuel c T v).2 r hr).2 hres]; rfl
+
+end Utv.C18
+
+namespace Utv.C18
+
+/-! ### the single-`d` statement of the property, and where the unchanged code departs from it
+
+The property says "with `max_depth = d` a value is accepted exactly when its nesting depth is at most `d`".  The code
+gives every class its own limit (`C18_limit_exact`).  When all classes of the declaration carry the same `d`
+(`uniformLimits`, decidable) `Respects` is `rdepth r ≤ d` and the single-`d` statement follows (`C18_depth_exact`,
+`C18_depth_exact_iff`, restated below for a declaration that *is* uniform rather than made uniform).
+
+Known defect `limit-not-inherited` (full statement kept visible):
+
+    theorem C18_root_limit : limit of the root class = some d → parseTop … = .ok r → rdepth r ≤ d
+
+is **false** of the code when a nested class declares no (or a larger) limit: `C18_limit_not_inherited_witness`. -/
+
+/-- every class of the declaration declares `max_depth = d` -/
+def uniformLimits (d : Nat) (E : Env) : Bool := E.all fun cd => cd.maxDepth == some d
+
+theorem withLimit_of_uniform (d : Nat) (E : Env) (h : uniformLimits d E = true) : withLimit d E = E := by
+  simp only [uniformLimits, List.all_eq_true, beq_iff_eq] at h
+  simp only [withLimit]
+  conv => rhs; rw [← List.map_id E]
+  apply List.map_congr_left
+  intro cd hcd
+  have := h cd hcd
+  cases cd
+  simp_all
+
+/-- the property's single-`d` biconditional, for declarations whose classes all declare that `d` (partial: outside the
+known defect `limit-not-inherited`) -/
+theorem C18_root_limit_partial (W : World) (Q : Quirks) (hQ : Q.falsyRoute = false) (hR : Q.rootLevel = false)
+    (E : Env) (hE : envUnamb E = true) (d : Nat) (hd : d ≠ 0) (hu : uniformLimits d E = true)
+    (fuel : Nat) (via : Bool) (k : Nat) (v : Val) :
+    (parseTop W Q E fuel via k v).1.isOk = true ↔
+      ∃ r, (parseTop W Q (unlimited E) fuel via k v).1 = .ok r ∧ rdepth r ≤ d := by
+  have := C18_depth_exact_iff W Q hQ hR E hE d hd fuel via k v
+  rwa [withLimit_of_uniform d E hu] at this
+
+/-- **negation witness**: class 0 declares `max_depth = 1`, its field is of the recursive class 1 that declares no
+limit: a value of nesting depth 4 is accepted (the corpus replays depth 7 on the real code) -/
+theorem C18_limit_not_inherited_witness :
+    let E : Env := [{ fields := [("v", .leaf), ("b", .data 1)], maxDepth := some 1 },
+                    { fields := [("v", .leaf), ("nx", .union [.data 1, .none])] }]
+    let v := Val.dict [(.str "b", twoLevels (twoLevels leafNode))]
+    uniformLimits 1 E = false ∧
+    (match (parseTop W0 Quirks.fixed E 20 false 0 v).1 with
+     | .ok r => rdepth r
+     | .err _ => 0) = 4 := by
+  decide
+
+/-- non-vacuity of `uniformLimits` -/
+example : uniformLimits 3 (withLimit 3 nodeEnv) = true := by decide
+
+end Utv.C18
+
+namespace Utv.C18
+
+/-! ### fuel adequacy
+
+`fuel` only bounds the recursion of the model.  With `need H T v = vsize v · (H+2) + tyH T + 1` units (`H` = the greatest
+height of a field type of the declarations) the recursion never reaches the bottom: the outcome never carries the
+exhaustion flag and is the same for every larger amount.  So the `isOk = false` conclusions of `C18_deep_rejected`,
+`C18_cyclic_rejected`, `C18_seqcycle_rejected` are genuine rejections (`C18_rejection_genuine`), not exhaustion. -/
+
+/-- **Fuel adequacy**: with at least `need H T v` fuel the outcome (1) never reports exhaustion and (2) is the outcome
+for every other adequate amount of fuel — the fuel-independent result. -/
+theorem C18_fuel_adequate (W : World) (Q : Quirks) (E : Env) (H : Nat) (hE : envH H E = true) (fuel : Nat)
+    (c : Ctx) (T : Ty) (v : Val) (hn : need H T v ≤ fuel) :
+    (∀ f, (parse W Q E fuel c T v).1 = .err f → f.fuel = false) ∧
+    (∀ fuel', need H T v ≤ fuel' → parse W Q E fuel' c T v = parse W Q E fuel c T v) := by
+  have stable : ∀ n j, need H T v ≤ n → parse W Q E (n + j) c T v = parse W Q E n c T v := by
+    intro n j hnj
+    rw [parse_eq_iter, parse_eq_iter, iter_add]
+    exact iter_indep H hE _ _ n c T v hnj
+  constructor
+  · intro f hf
+    rw [parse_eq_iter, iter_indep H hE outOfFuel (fun _ _ _ => (.err {}, 0)) fuel c T v hn] at hf
+    exact iter_noFuel _ (fun _ _ _ g hg => by simp at hg; subst hg; rfl) fuel c T v f hf
+  · intro fuel' hn'
+    by_cases hle : fuel ≤ fuel'
+    · obtain ⟨j, rfl⟩ := Nat.exists_eq_add_of_le hle
+      exact stable fuel j hn
+    · have hle' : fuel' ≤ fuel := by omega
+      obtain ⟨j, rfl⟩ := Nat.exists_eq_add_of_le hle'
+      exact (stable fuel' j hn').symm
+
+/-- a rejection obtained with adequate fuel is a rejection for every adequate fuel, and not an exhaustion -/
+theorem C18_rejection_genuine (W : World) (Q : Quirks) (E : Env) (H : Nat) (hE : envH H E = true) (fuel : Nat)
+    (c : Ctx) (T : Ty) (v : Val) (hn : need H T v ≤ fuel) (hrej : (parse W Q E fuel c T v).1.isOk = false) :
+    (∃ f, (parse W Q E fuel c T v).1 = .err f ∧ f.fuel = false) ∧
+    ∀ fuel', need H T v ≤ fuel' → (parse W Q E fuel' c T v).1.isOk = false := by
+  have ha := C18_fuel_adequate W Q E H hE fuel c T v hn
+  constructor
+  · cases h : (parse W Q E fuel c T v).1 with
+    | ok r => rw [h] at hrej; cases hrej
+    | err f => exact ⟨f, rfl, ha.1 f h⟩
+  · intro fuel' hn'
+    rw [ha.2 fuel' hn']; exact hrej
+
+theorem envH_withLimit (H d : Nat) (E : Env) : envH H (withLimit d E) = envH H E := by
+  simp [envH, withLimit, List.all_map, Function.comp_def]
+
+/-- **Inputs deeper than the limit are rejected — genuinely**: `C18_deep_rejected` with adequate fuel gives a
+`ParseError` outcome without the exhaustion flag, for every adequate amount of fuel. -/
+theorem C18_deep_rejected_adequate (W : World) (Q : Quirks) (hQ : Q.falsyRoute = false) (hR : Q.rootLevel = false)
+    (E : Env) (H : Nat) (hE : envH H E = true) (d : Nat) (hd : d ≠ 0) (fuel : Nat) (via : Bool) (k : Nat) (v : Val)
+    (n : Nat) (hf : Forced E (.data k) v n) (hdn : d < n) (hn : need H (.data k) v ≤ fuel) :
+    ∃ f, (parseTop W Q (withLimit d E) fuel via k v).1 = .err f ∧ f.fuel = false := by
+  have hrej := C18_deep_rejected W Q hQ hR E d hd fuel via k v n hf hdn
+  simp only [parseTop] at hrej ⊢
+  exact (C18_rejection_genuine W Q (withLimit d E) H (by rw [envH_withLimit]; exact hE) fuel _ _ v hn hrej).1
+
+/-- non-vacuity: the declarations used above have small heights, and a concrete adequate fuel -/
+example : envH 1 nodeEnv = true ∧ need 1 (.data 0) (badChain 2) = 19 := by decide
+
+end Utv.C18
+
+namespace Utv.C18
+
+/-! ### every context the model builds is within its own limit
+
+(the hypothesis `hc : exceeded c.md c.depth = false` of the T1 obligation `Utv.GenEq.C18.C18_gen_init_enter`): the root
+context of `parseTop` / `parseAssign` has no limit, a class context exists only after its check passed, and `enter`
+keeps level and limit. -/
+
+theorem C18_classCtx_within (d : Nat) (cd : ClassDecl) (c' : Ctx) (h : classCtx d cd = .ok c') :
+    exceeded c'.md c'.depth = false ∧ c'.depth = d + 1 ∧ c'.md = cd.maxDepth := by
+  simp only [classCtx] at h
+  split at h
+  · cases h
+  · rename_i hex
+    simp only [Out.ok.injEq] at h
+    subst h
+    exact ⟨by simpa using hex, rfl, rfl⟩
+
+theorem C18_enter_keeps_within (Q : Quirks) (hQ : Q.falsyRoute = false) (c : Ctx) (b : Bool) (m : Mode)
+    (hc : exceeded c.md c.depth = false) :
+    ∃ c', enter Q c b m = .ok c' ∧ exceeded c'.md c'.depth = false ∧ c'.depth = c.depth ∧ c'.md = c.md :=
+  ⟨_, enter_fixed Q hQ c b m, hc, rfl, rfl⟩
 
 end Utv.C18
